@@ -27,6 +27,10 @@ type HData struct {
 
 type Counters struct{ Execs map[int]int }
 
+// ErrTrigger: a processor whose A input evaluates to exactly this string fails
+// (NodeTerms.tla).
+const ErrTrigger = "p1:13"
+
 func (d HData) Process() (string, error) {
 	d.Ctr.Execs[d.ID]++
 	var sb strings.Builder
@@ -34,7 +38,20 @@ func (d HData) Process() (string, error) {
 	if d.A == nil {
 		sb.WriteString("-")
 	} else {
-		sb.WriteString(d.A.Value())
+		a := d.A.Value()
+		if a == ErrTrigger {
+			// still read every input, as the contract of the harness processors says
+			if d.B != nil {
+				_ = d.B.Value()
+			}
+			for _, e := range d.Arr {
+				if e != nil {
+					_ = e.Value()
+				}
+			}
+			return "", fmt.Errorf("input %s is not acceptable", a)
+		}
+		sb.WriteString(a)
 	}
 	sb.WriteString(",")
 	if d.B == nil {
@@ -291,7 +308,7 @@ func GenNodeGraph(out string, seed int64, n, steps, np, nn int) error {
 			nid := np + 1 + r.Intn(nn)
 			switch r.Intn(10) {
 			case 0, 1, 2:
-				hist.Steps = append(hist.Steps, NGStep{Op: "set", P: 1 + r.Intn(np), V: 1 + r.Intn(3)})
+				hist.Steps = append(hist.Steps, NGStep{Op: "set", P: 1 + r.Intn(np), V: []int{1, 2, 3, 13, 13}[r.Intn(5)]})
 			case 3:
 				s := 0
 				if r.Intn(4) > 0 {
